@@ -21,6 +21,7 @@ import (
 	"pgregory.net/rapid"
 	"verif/harness/internal/cfggen"
 	"verif/harness/internal/ev"
+	"verif/harness/internal/gogen"
 	"verif/harness/internal/irbuild"
 	"verif/harness/internal/irvalid"
 )
@@ -63,7 +64,7 @@ func flushStats() {
 		"uses_checked_for_dominance": stats.UsesChecked, "recover_block_relaxations": stats.RecoverRelaxed,
 		"unreachable_blocks_seen": stats.UnreachableBlks, "typing_rule_applications": stats.TypeRules,
 		"functions_with_free_type_params_structural_only": stats.TypeSkippedGen,
-		"if_with_same_targets_observed": stats.IfSameTarget, "stale_locals_entries_observed": stats.StaleLocals, "duplicate_edges_observed": stats.DuplicateEdges,
+		"if_with_same_targets_observed": stats.IfSameTarget, "stale_locals_entries_observed": stats.StaleLocals, "referrer_multiplicity_differs_observed": stats.ReferrerMultiplicityDiffers, "duplicate_edges_observed": stats.DuplicateEdges,
 	})
 	kinds := map[string]any{}
 	for k, v := range stats.InstrKinds {
@@ -166,23 +167,34 @@ func TestGenerated(t *testing.T) {
 	defer flushStats()
 	cfg := cfggen.Default()
 	ev.Check(t, "TestGenerated", func(rt *rapid.T) {
-		p := cfggen.Generate(rt, cfg)
+		// two generators: goto graphs / recover blocks (cfggen) and the rich typed executable subset (gogen)
+		var src string
+		var feats []string
+		if rapid.IntRange(0, 2).Draw(rt, "generator") == 0 {
+			gp := gogen.Generate(rt, gogen.DefaultConfig())
+			src, feats = gp.Src, gp.Features
+			ev.Count("generated_by_gogen", 1)
+		} else {
+			p := cfggen.Generate(rt, cfg)
+			src, feats = p.Src, keys(p.Features)
+			ev.Count("generated_by_cfggen", 1)
+		}
 		// all 16 modes for every program: the mode is part of the case
 		for _, mode := range allModes {
-			c := Case{Src: p.Src, Mode: uint(mode)}
+			c := Case{Src: src, Mode: uint(mode)}
 			b, _ := json.Marshal(c)
 			ev.Begin("TestGenerated", "json", b)
-			msg, invalid := evalSource(p.Src, mode)
+			msg, invalid := evalSource(src, mode)
 			if invalid {
 				ev.Count("gen_invalid", 1)
 				return
 			}
 			if msg != "" {
-				ev.Failf(rt, "TestGenerated", "ill-formed IR in builder mode %q\n%s\nsource:\n%s", mode.String(), msg, p.Src)
+				ev.Failf(rt, "TestGenerated", "ill-formed IR in builder mode %q\n%s\nsource:\n%s", mode.String(), msg, src)
 			}
 		}
 		if ev.WantSample() {
-			ev.Sample(map[string]any{"kind": "generated", "features": keys(p.Features), "bytes": len(p.Src)})
+			ev.Sample(map[string]any{"kind": "generated", "features": feats, "bytes": len(src)})
 		}
 	})
 }
